@@ -18,7 +18,7 @@ TARGETS = ['boltons.fileutils.AtomicSaver.__init__', 'boltons.fileutils.AtomicSa
            'boltons.fileutils.replace']
 BOUNDS = {
     'quick': {'crash_points': 'every ticked call 0..19 and "after the with-block"', 'writes': '0..3 of symbolic byte strings (len <= 2 each)',
-              'lost_suffix': 'unbounded symbolic int', 'buffer_limit': '1..3 bytes (forces early partial write(2))',
+              'lost_suffix': 'unbounded symbolic int', 'buffer_limit': '1..3 bytes (forces early partial write(2))', 'stale part file': 'absent, or a longer leftover taken over with overwrite_part=True',
               'config': 'binary/text, destination present/absent, overwrite True/False'},
     'thorough': {'writes': '0..4', 'extra': 'part_file= given; two savers on the same destination back to back'},
 }
@@ -89,6 +89,10 @@ def crash_law(crash_at: int, lost: int, nwrites: int, a: bytes, b: bytes, c: byt
     if pinval('part'):
         kw['part_file'] = 'tmp.part'
     part = '/d/tmp.part' if pinval('part') else DEST + '.part'
+    if pinval('stale'):
+        # leftover of an earlier, failed save (longer than anything written here), taken over with overwrite_part=True
+        fs.names[part] = Inode(0o600, b'STALE-PART-FILE-CONTENT')
+        kw['overwrite_part'] = True
     undo = fakeos.install(fu, fs)
     crashed = None
     try:
@@ -182,5 +186,7 @@ def obligations(tier):
         obs.append(Ob('crash_law', timeout=T, pins={'text': 0, 'nwrites': nw, 'part': nw % 2}, need_kinds=kinds))
     for nw in (1, 3):
         obs.append(Ob('crash_law', timeout=T, pins={'text': 1, 'nwrites': nw, 'part': 0}, need_kinds=kinds))
+    for nw in (0, 2) if q else (0, 1, 2, 3):
+        obs.append(Ob('crash_law', timeout=T, pins={'text': 0, 'nwrites': nw, 'part': 0, 'stale': 1}, need_kinds=kinds))
     obs.append(Ob('two_savers_law', timeout=T, need_kinds=('completed', 'crash_second')))
     return obs
